@@ -640,7 +640,12 @@ class Gen(object):
                         continue
                     v = self.svar()
                     params.append('p%d' % (len(params) + 1) if r.random() < 0.5 else v + 'x' * len(params))
-                    out.append(['x', v])
+                    if dirs_ok and not plain and r.random() < 0.15:
+                        # a gettext call in the expression bound to the parameter (not inside a
+                        # directive-carrying element of the message: finding C19-sub-attrs)
+                        out.append(self.expr())
+                    else:
+                        out.append(['x', v])
                 else:
                     out.append(self.expr())
                 prev = 'x'
